@@ -31,22 +31,35 @@ ATTR = {
 }
 
 
-def program(kind, place, cfg):
+TKINDS = ("opaque", "struct", "enum")
+TDECL = {"opaque": "    #[diplomat::opaque]\n    pub struct Tee(u8);\n", "struct": "    pub struct Tee {\n        pub a: u8,\n    }\n",
+         "enum": "    pub enum Tee {\n        A,\n        B,\n    }\n"}
+
+
+def program(kind, place, cfg, tkind="opaque"):
+    """the attributed item is the type Tee (an opaque, a struct or an enum: the three kinds are lowered by different code)"""
     a = lambda pl: ("    #[diplomat::attr(%s, %s)]\n" % (cfg, ATTR[(kind, place)])) if (cfg is not None and pl == place) else ""
     mod_attr = ("#[diplomat::attr(%s, %s)]\n" % (cfg, ATTR[(kind, place)])) if (cfg is not None and place == "module") else ""
-    return ("#[diplomat::bridge]\n" + mod_attr + "mod ffi {\n" + a("type") +
-            "    #[diplomat::opaque]\n    pub struct Tee(u8);\n" + a("impl") +
+    slf = "&self" if tkind == "opaque" else "self"
+    return ("#[diplomat::bridge]\n" + mod_attr + "mod ffi {\n" + a("type") + TDECL[tkind] + a("impl") +
             "    impl Tee {\n    " + a("method") +
-            "        pub fn m_one(&self) -> u8 { 1 }\n        pub fn m_two(&self) -> u8 { 2 }\n    }\n"
-            "    impl Tee {\n        pub fn m_three(&self) -> u8 { 3 }\n    }\n"
+            "        pub fn m_one(%s) -> u8 { 1 }\n        pub fn m_two(%s) -> u8 { 2 }\n    }\n"
+            "    impl Tee {\n        pub fn m_three(%s) -> u8 { 3 }\n    }\n"
             "    #[diplomat::opaque]\n    pub struct Uuu(u8);\n"
-            "    impl Uuu {\n        pub fn u_one(&self) -> u8 { 1 }\n    }\n}\n")
+            "    impl Uuu {\n        pub fn u_one(&self) -> u8 { 1 }\n    }\n}\n" % (slf, slf, slf))
 
 
-ALLSYMS = {"Tee_m_one", "Tee_m_two", "Tee_m_three", "Tee_destroy", "Uuu_u_one", "Uuu_destroy"}
+def allsyms(tkind):
+    return {"Tee_m_one", "Tee_m_two", "Tee_m_three", "Uuu_u_one", "Uuu_destroy"} | ({"Tee_destroy"} if tkind == "opaque" else set())
+
+
+ALLSYMS = allsyms("opaque")
+
+
 # symbols that must disappear from a backend's references when the disable applies (spec: DisabledTypes/Methods)
-GONE = {"module": ALLSYMS, "type": {"Tee_m_one", "Tee_m_two", "Tee_m_three", "Tee_destroy"},
-        "impl": {"Tee_m_one", "Tee_m_two"}, "method": {"Tee_m_one"}}
+def gone(place, tkind):
+    return {"module": allsyms(tkind), "type": allsyms(tkind) - {"Uuu_u_one", "Uuu_destroy"},
+            "impl": {"Tee_m_one", "Tee_m_two"}, "method": {"Tee_m_one"}}[place]
 RENDERS_RENAME = ["cpp", "js", "dart", "nanobind"]
 
 
@@ -119,10 +132,11 @@ def placement(rep, tier, cases):
     rng.shuffle(sigs)
     per_place = 3 if tier == "quick" else 16
     nruns = 0
-    for kind in ("disable", "rename"):
-        for place in ("module", "type", "impl", "method"):
-            none = gen_all(wd, "none", program(kind, place, None))
-            star = gen_all(wd, "star", program(kind, place, "*"))
+    for kind, place, tkind in [(k, p, t) for k in ("disable", "rename") for p in ("module", "type", "impl", "method") for t in TKINDS]:
+        if True:
+            ALLSYMS = allsyms(tkind)
+            none = gen_all(wd, "none", program(kind, place, None, tkind))
+            star = gen_all(wd, "star", program(kind, place, "*", tkind))
             for b in lib.BACKENDS:
                 if none[b]["rc"] != 0 or star[b]["rc"] != 0:
                     rep.violation({"leg": "placement", "what": "tool failed on reference program", "backend": b, "kind": kind, "place": place},
@@ -137,7 +151,7 @@ def placement(rep, tier, cases):
                     rep.violation({"leg": "placement", "what": "attribute-free program does not reference all symbols", "backend": b},
                                   {"refs": sorted(refs_none)})
                 if kind == "disable":
-                    want = ALLSYMS - GONE[place]
+                    want = ALLSYMS - gone(place, tkind)
                     if refs_star != want:
                         rep.violation({"leg": "placement", "what": "disabled items still referenced / enabled ones missing",
                                        "backend": b, "place": place},
@@ -155,12 +169,20 @@ def placement(rep, tier, cases):
                         if star[b]["tree"] == none[b]["tree"] or new.encode() not in blob:
                             rep.violation({"leg": "placement", "what": "rename not rendered", "backend": b, "place": place}, {})
                         if place == "module" and b"renm" in blob.lower():
-                            rep.violation({"leg": "placement", "what": "module rename reached a method", "backend": b}, {})
+                            rep.violation({"leg": "placement", "what": "module rename reached a method", "backend": b, "type_kind": tkind}, {})
+                        # a rename of the module or of the type is about the TYPE's name: its methods keep theirs
+                        if place in ("module", "type"):
+                            lost = [m for m in ("m_one", "m_two", "m_three")
+                                    if m.encode() not in blob and (m[0] + m[1:].title().replace("_", "")).encode() not in blob
+                                    and ("m" + m[2:].capitalize()).encode() not in blob]
+                            if lost:
+                                rep.violation({"leg": "placement", "what": "type/module rename changed method names", "backend": b,
+                                               "place": place, "type_kind": tkind}, {"methods_no_longer_rendered": lost})
             # conditional attribute: each backend equals star-output iff Sat(F, b)
-            for sig in sigs[:per_place]:
+            for sig in sigs[:(per_place if tkind == "opaque" else 1)]:
                 c = rng.choice(by_sig[sig])
                 txt = ftext(c["form"])
-                got = gen_all(wd, "cond", program(kind, place, txt))
+                got = gen_all(wd, "cond", program(kind, place, txt, tkind))
                 nruns += 1
                 for b in lib.BACKENDS:
                     exp = star[b] if c["sat"][b] else none[b]
@@ -176,7 +198,7 @@ def placement(rep, tier, cases):
                                 if (got[b]["tree"] or {}).get(f) != (exp_tree or {}).get(f)]
                         rep.violation({"leg": "placement", "kind": kind, "place": place, "backend": b, "holds": c["sat"][b]},
                                       {"formula": txt, "differing_files": sorted(diff)[:10], "stderr": got[b]["stderr"],
-                                       "program": program(kind, place, txt)})
+                                       "program": program(kind, place, txt, tkind)})
                 rep.nontriv("%s@%s:%s" % (kind, place, txt))
     rep.evaluations += nruns * len(lib.BACKENDS)
     rep.traces += nruns
